@@ -64,6 +64,13 @@ def _res(paths, val):
 def check_adapter(chk, rule, repo, layout_eval, key, blank_rule=None):
     """decide the decode semantics of one adapter class.  Reports under ``rule``
     (value semantics) and ``blank_rule`` (blank-input semantics) when given."""
+    try:
+        return _check_adapter(chk, rule, repo, layout_eval, key, blank_rule)
+    except Unknown as e:
+        raise AnalysisError(f"{key[0]}:{key[1]}._decode: abstract evaluation on input classes does not apply ({e})")
+
+
+def _check_adapter(chk, rule, repo, layout_eval, key, blank_rule=None):
     classes = find_adapter_classes(repo, layout_eval)
     if key not in classes:
         raise AnalysisError(f"anchor vanished: adapter class {key[0]}:{key[1]}")
